@@ -60,7 +60,7 @@ def tasks(tier):
         out.append('helpers:%d' % n)
         for nb in (1, 2, 3):
             out.append('gj:%d:%d' % (n, nb))
-    out += ['gjwit', 'linalg3', 'tql2', 'canary']
+    out += ['gjwit', 'linalg3', 'tql2', 'callsites', 'canary']
     out += ['tred2:%d' % k for k in range(TRED2_PATHS)]
     out += ['eigen_bounded']
     return out
@@ -190,6 +190,170 @@ def replay_gj(n, nb):
     return rp
 
 
+# --------------------------------------------------------------- call sites
+USERS = ['pysph/sph/wc/crksph.py', 'pysph/sph/wc/kernel_correction.py',
+         'pysph/sph/wc/density_correction.py', 'pysph/tools/interpolator.py']
+
+# preconditions under which the helper proofs above hold (the index
+# obligations of tasks helpers / gj were discharged for lists of exactly
+# these lengths): parameter -> least length, as a function of the integer
+# arguments
+HELPER_PRE = {
+    'identity': dict(a=lambda v: v['n'] * v['n']),
+    'dot': dict(a=lambda v: v['n'], b=lambda v: v['n']),
+    'mat_mult': dict(a=lambda v: v['n'] ** 2, b=lambda v: v['n'] ** 2,
+                     result=lambda v: v['n'] ** 2),
+    'mat_vec_mult': dict(a=lambda v: v['n'] ** 2, b=lambda v: v['n'],
+                         result=lambda v: v['n']),
+    'augmented_matrix': dict(
+        A=lambda v: v['nmax'] * (v['n'] - 1) + v['n'],
+        b=lambda v: v['na'] * v['n'],
+        result=lambda v: (v['n'] + v['na']) * v['n']),
+    'gj_solve': dict(m=lambda v: v['n'] * (v['n'] + v['nb']),
+                     result=lambda v: v['n'] * v['nb']),
+}
+
+
+def task_callsites(ctx, repo, m):
+    """Callers are checked against the helpers' contracts: in every method
+    of the anchored user files, each call of identity / dot / mat_mult /
+    mat_vec_mult / augmented_matrix / gj_solve passes one argument per
+    parameter (the transpiled C function has no defaults), in the helper's
+    parameter order, integer sizes that are known for every dimension the
+    method can run in (self.dim in 1..3), and local `declare('matrix(K)')`
+    buffers at least as long as the helper's precondition demands
+    (n <= nmax for augmented_matrix)."""
+    import re
+    sigs = {}
+    for h in HELPER_PRE:
+        fn = m.functions[h]
+        sigs[h] = [a.arg for a in fn.args.args]
+    obs = []
+    ncalls = 0
+    for rel in USERS:
+        try:
+            um = repo.module(rel[:-3].replace('/', '.'))
+        except Exception as e:
+            obs.append(Obligation('callsites.%s.readable' % rel, [],
+                                  z3.BoolVal(False), rel))
+            continue
+        W = um.path
+        tree = um.tree
+        for cls in [n_ for n_ in tree.body if isinstance(n_, ast.ClassDef)]:
+            for fn in [n_ for n_ in cls.body
+                       if isinstance(n_, ast.FunctionDef)]:
+                calls = [c for c in ast.walk(fn) if isinstance(c, ast.Call)
+                         and isinstance(c.func, ast.Name)
+                         and c.func.id in HELPER_PRE]
+                if not calls:
+                    continue
+                ctx.function(um, fn, '%s.%s' % (cls.name, fn.name))
+                # local buffers and integer assignments, in source order
+                buf = {}
+                ints = []
+                for st_ in ast.walk(fn):
+                    if isinstance(st_, ast.Assign) and isinstance(
+                            st_.value, ast.Call) and isinstance(
+                            st_.value.func, ast.Name) and \
+                            st_.value.func.id == 'declare' and \
+                            st_.value.args and isinstance(
+                                st_.value.args[0], ast.Constant):
+                        mm_ = re.match(r'matrix\((\d+)\)',
+                                       str(st_.value.args[0].value))
+                        if mm_:
+                            for t in st_.targets:
+                                for nm in ([t] if isinstance(t, ast.Name)
+                                           else getattr(t, 'elts', [])):
+                                    if isinstance(nm, ast.Name):
+                                        buf[nm.id] = int(mm_.group(1))
+                    elif isinstance(st_, ast.Assign) and len(
+                            st_.targets) == 1 and isinstance(
+                            st_.targets[0], ast.Name):
+                        ints.append((st_.lineno, st_.targets[0].id,
+                                     st_.value))
+                ints.sort(key=lambda x: x[0])
+                uses_dim = 'self.dim' in ast.unparse(fn)
+                for call in calls:
+                    ncalls += 1
+                    h = call.func.id
+                    tag = 'callsites.%s.%s.%s@%d' % (cls.name, fn.name, h,
+                                                     call.lineno)
+                    params = sigs[h]
+                    ok_arity = len(call.args) == len(params) and \
+                        not call.keywords
+                    obs.append(Obligation(
+                        tag + '.one_argument_per_parameter', [],
+                        z3.BoolVal(ok_arity), W, extra=dict(
+                            call=ast.unparse(call), parameters=params)))
+                    if not ok_arity:
+                        continue
+                    amap = dict(zip(params, call.args))
+                    for dim in ((1, 2, 3) if uses_dim else (None,)):
+                        env = {}
+                        for ln, nm, val in ints:
+                            if ln >= call.lineno:
+                                break
+                            try:
+                                src = ast.unparse(val).replace('self.dim',
+                                                               str(dim))
+                                v_ = eval(src, {'__builtins__': {}}, dict(
+                                    env))
+                                if isinstance(v_, int) and not isinstance(
+                                        v_, bool):
+                                    env[nm] = v_
+                                else:
+                                    env.pop(nm, None)
+                            except Exception:
+                                env.pop(nm, None)
+                        vals = {}
+                        known = True
+                        for p_ in params:
+                            if p_ in HELPER_PRE[h]:
+                                continue
+                            a_ = amap[p_]
+                            try:
+                                src = ast.unparse(a_).replace('self.dim',
+                                                              str(dim))
+                                vals[p_] = eval(src, {'__builtins__': {}},
+                                                dict(env))
+                            except Exception:
+                                known = False
+                        dt = '' if dim is None else '.dim%d' % dim
+                        obs.append(Obligation(
+                            tag + dt + '.sizes_are_known_integers', [],
+                            z3.BoolVal(known and all(
+                                isinstance(x, int) and x >= 1
+                                for x in vals.values())), W,
+                            extra=dict(call=ast.unparse(call),
+                                       sizes=str(vals))))
+                        if not known:
+                            continue
+                        if h == 'augmented_matrix':
+                            obs.append(Obligation(
+                                tag + dt + '.n_le_nmax', [], z3.BoolVal(
+                                    vals['n'] <= vals['nmax']), W))
+                        for p_, need in HELPER_PRE[h].items():
+                            a_ = amap[p_]
+                            if isinstance(a_, ast.Name) and a_.id in buf:
+                                try:
+                                    nd = need(vals)
+                                except Exception:
+                                    nd = None
+                                obs.append(Obligation(
+                                    '%s%s.%s_is_long_enough' % (tag, dt, p_),
+                                    [], z3.BoolVal(nd is not None and
+                                                   buf[a_.id] >= nd), W,
+                                    extra=dict(buffer=a_.id,
+                                               declared=buf[a_.id],
+                                               needed=nd,
+                                               call=ast.unparse(call))))
+    if ncalls < 10:
+        obs.append(Obligation('callsites.found', [], z3.BoolVal(False),
+                              m.path, extra=dict(calls=ncalls)))
+    ctx.note('%d helper calls in %d user files' % (ncalls, len(USERS)))
+    ctx.prove('callsites.every_call_meets_the_helper_precondition', obs)
+
+
 # -------------------------------------------------------------------- tasks
 def run_task(task, ctx):
     repo = Repo()
@@ -201,6 +365,8 @@ def run_task(task, ctx):
         return task_gj(ctx, repo, m, int(parts[1]), int(parts[2]))
     if parts[0] == 'gjwit':
         return task_gjwit(ctx, repo, m)
+    if parts[0] == 'callsites':
+        return task_callsites(ctx, repo, m)
     if parts[0] == 'linalg3':
         return task_linalg3(ctx, repo)
     if parts[0] == 'tql2':
@@ -680,6 +846,9 @@ def eigen_decomposition(ctx, repo, mc, run, M):
     ex = Executor(repo, mc, qualname='eigen_decomposition',
                   definedness='assume', inline={'zero_matrix_case'},
                   externals={'tred2': tred2_c, 'tql2': tql2_c})
+    # module constant EPS = numpy.finfo(float).eps (unused by the unchanged
+    # function; modelled so that a change that brings it in is decided)
+    ex.spec_env['EPS'] = Fraction(1, 2 ** 52)
     fn = mc.functions['eigen_decomposition']
     Vv = M('Vin')
     dd = syms('din', 3)
